@@ -44,6 +44,15 @@ def _is_complement(b, a, orders: str) -> bool:
     return False
 
 
+def _ancestors_within(n, root):
+    out = []
+    p = getattr(n, "_parent", None)
+    while p is not None and p is not root:
+        out.append(p)
+        p = getattr(p, "_parent", None)
+    return out
+
+
 def rule_product_by_order(rep: Report, repo: Repo):
     f = repo.find("series::product_by_order", R)
     loc = lambda n: repo.loc("series", n)
@@ -59,8 +68,8 @@ def rule_product_by_order(rep: Report, repo: Repo):
     post = f.body[f.body.index(loop) + 1:]
     # -- skeleton: `result = zero` before, `return result` after, no other exit -----------------------
     rets = [n for n in own_nodes(f) if isinstance(n, ast.Return)]
-    exits_in_loop = [n for s in loop.body if not isinstance(s, ast.FunctionDef) for n in [s, *own_nodes(s)]
-                     if isinstance(n, (ast.Break, ast.Return))]
+    exits_in_loop = [n for n in ast.walk(loop) if isinstance(n, (ast.Break, ast.Return))
+                     and not any(isinstance(p_, (ast.FunctionDef, ast.Lambda)) and p_ is not loop for p_ in _ancestors_within(n, loop))]
     if not (len(rets) == 1 and rets[0] in post and not exits_in_loop):
         raise AnalysisError(R, "product_by_order has an exit other than one `return` after the complete loop; "
                                "the splitting enumeration cannot be certified")
@@ -82,15 +91,42 @@ def rule_product_by_order(rep: Report, repo: Repo):
     env0 = run_block([s for s in pre if s is not unpack[0]])
     env0.pop(acc, None)
     # -- loop header --------------------------------------------------------------------------------------------
-    titems = tuple_items(loop.target)
-    if not (titems and [k for k, _ in titems] == ["n", "*"]):
-        raise AnalysisError(R, f"loop target `{norm(loop.target)}` is not (middle, *orders_1st)")
-    middle, o1name = titems[0][1], titems[1][1]
-    it = resolved(loop.iter, env0)
-    if not (isinstance(it, ast.Call) and call_name(it) in ("product", "itertools.product") and len(it.args) == 2
-            and isinstance(it.args[1], ast.Starred) and isinstance(it.args[1].value, (ast.GeneratorExp, ast.ListComp))):
-        raise AnalysisError(R, f"loop iterator `{norm(it)[:80]}` is not product(range(.), *(range(.) for . in orders))")
-    mid = it.args[0]
+    top_loop = loop
+    nest = [loop]
+    while len(nest[-1].body) == 1 and isinstance(nest[-1].body[0], ast.For) and not nest[-1].body[0].orelse:
+        nest.append(nest[-1].body[0])
+    if len(nest) == 1:
+        titems = tuple_items(loop.target)
+        if not (titems and [k for k, _ in titems] == ["n", "*"]):
+            raise AnalysisError(R, f"loop target `{norm(loop.target)}` is not (middle, *orders_1st)")
+        middle, o1name = titems[0][1], titems[1][1]
+        it = resolved(loop.iter, env0)
+        if not (isinstance(it, ast.Call) and call_name(it) in ("product", "itertools.product") and len(it.args) == 2
+                and isinstance(it.args[1], ast.Starred) and isinstance(it.args[1].value, (ast.GeneratorExp, ast.ListComp))):
+            raise AnalysisError(R, f"loop iterator `{norm(it)[:80]}` is not product(range(.), *(range(.) for . in orders))")
+        mid, box = it.args[0], it.args[1].value
+    elif len(nest) == 2 and all(isinstance(l_.target, ast.Name) for l_ in nest):
+        # the same domain as a nest: one loop over the intermediate block, one over the box of first-factor orders
+        its = [resolved(l_.iter, env0) for l_ in nest]
+        roles = {}
+        for l_, it_ in zip(nest, its):
+            if isinstance(it_, ast.Call) and call_name(it_) == "range":
+                roles["mid"] = (l_, it_)
+            elif isinstance(it_, ast.Call) and call_name(it_) in ("product", "itertools.product") and len(it_.args) == 1 \
+                    and isinstance(it_.args[0], ast.Starred) and isinstance(it_.args[0].value, (ast.GeneratorExp, ast.ListComp)):
+                roles["box"] = (l_, it_)
+        if set(roles) != {"mid", "box"}:
+            raise AnalysisError(R, f"loop nest over `{norm(its[0])[:50]}` / `{norm(its[1])[:50]}` is not range(.) x product(*(range(.) for . in orders))")
+        middle, o1name = roles["mid"][0].target.id, roles["box"][0].target.id
+        mid, box = roles["mid"][1], roles["box"][1].args[0].value
+        loop = nest[-1]
+    else:
+        raise AnalysisError(R, f"loop nest of depth {len(nest)} not understood")
+    if True:
+        class _It:  # the rest of the rule reads `it.args[1].value`
+            pass
+        it = _It()
+        it.args = [mid, type("S", (), {"value": box})()]
     ok = isinstance(mid, ast.Call) and call_name(mid) == "range" and len(mid.args) == 1 and norm(mid.args[0]) in ("first.shape[1]", "second.shape[0]")
     rep.check(ok, R, "series::product_by_order E2.2 intermediate blocks", f"middle ranges over `{norm(mid)}`", loc(loop))
     gen = it.args[1].value
@@ -315,7 +351,8 @@ def _operator_order(rep, repo, f, loop, scope, env0, acc):
     for o in outcomes(loop.body, scope, env=dict(env0)):
         if acc not in o.env:
             continue
-        for n in ast.walk(o.env[acc]):
+        from .sem import fold_known
+        for n in ast.walk(fold_known(o.env[acc], o.conds)):
             if isinstance(n, ast.Call) and any(isinstance(x, ast.Name) and x.id == "operator" for x in ast.walk(n.func)):
                 seen.add(norm(n))
                 args = n.args
@@ -703,6 +740,12 @@ def rule_cauchy_wiring(rep: Report, repo: Repo):
     # default operator is matmul in both functions
     for q, fn in (("series::cauchy_dot_product", f), ("series::product_by_order", pbo)):
         d = default_operator(fn if fn is pbo else _two_factor_view(f, rest))
+        if d is None and fn is not pbo and default_operator(pbo) is not None and not any(
+                isinstance(s_, (ast.Assign, ast.AugAssign)) and any(norm(t_) == "operator" for t_ in (s_.targets if isinstance(s_, ast.Assign) else [s_.target]))
+                for s_ in ast.walk(f) if isinstance(s_, (ast.Assign, ast.AugAssign))):
+            # no default of its own: `operator` (possibly None) is handed on unchanged, and product_by_order applies the default
+            rep.ok(RC, f"{q} default operator is matmul", "operator is passed on as given; product_by_order defaults it", repo.loc("series", fn))
+            continue
         if d is None:
             raise AnalysisError(RC, f"{q}: defaulting of `operator` not recognised")
         rep.check(d == "matmul", RC, f"{q} default operator is matmul", f"operator defaults to `{d}`", repo.loc("series", fn))
